@@ -75,6 +75,116 @@ def coeffs (W : Nat) : List Nat :=
   | some cs => cs
   | none => derivedCoeffs W
 
+/-! ## kernel-fast copies of the `CnlModel.CInt` operators
+
+`decide +kernel` evaluates `(2 : Int)^n` by linear recursion (≈ 1 ms per `IntTy.wrap`), which makes a 65 536-case table
+take an hour.  The definitions below are the `CInt` definitions verbatim with every `(2 : Int)^n` replaced by the cast
+of the natural-number power (GMP-accelerated in the kernel).  `CnlProofs.Exp2` proves each of them *equal* to the `CInt`
+original (`wrapF_eq`, `arithF_eq`, `cBinF_eq`, `cCmpF_eq`, `scale2F_eq`), so the model below is written with the
+`CInt` semantics, not beside it. -/
+
+/-! Strict sequencing: the kernel substitutes unevaluated terms for bound variables, so a chain of seven Horner
+steps re-evaluates (or at least re-hashes) ever larger terms.  `forceInt x k` is `k x` (`forceInt_eq`), but its
+`match` makes the kernel reduce `x` to a literal first; `x >>=! f` is `x >>= f` (`bindS_eq`) with the value forced. -/
+
+def forceNat {α : Type} (n : Nat) (k : Nat → α) : α :=
+  match n with
+  | 0 => k 0
+  | m + 1 => k (m + 1)
+
+def forceInt {α : Type} (x : Int) (k : Int → α) : α :=
+  match x with
+  | .ofNat n => forceNat n fun n => k (.ofNat n)
+  | .negSucc n => forceNat n fun n => k (.negSucc n)
+
+def forceTV {α : Type} (v : TV) (k : TV → α) : α :=
+  forceNat v.1.bits fun b =>
+    match v.1.signed with
+    | true => forceInt v.2 fun x => k (⟨b, true⟩, x)
+    | false => forceInt v.2 fun x => k (⟨b, false⟩, x)
+
+/-- strict bind on typed values -/
+def bindS {β : Type} (x : Res TV) (f : TV → Res β) : Res β :=
+  match x with
+  | .ok v => forceTV v f
+  | .ub k => .ub k
+  | .trap p => .trap p
+  | .throws p => .throws p
+  | .unreachable m => .unreachable m
+  | .oob i => .oob i
+  | .diverges => .diverges
+  | .ill m => .ill m
+
+/-- strict bind on integers -/
+def bindI {β : Type} (x : Res Int) (f : Int → Res β) : Res β :=
+  match x with
+  | .ok v => forceInt v f
+  | .ub k => .ub k
+  | .trap p => .trap p
+  | .throws p => .throws p
+  | .unreachable m => .unreachable m
+  | .oob i => .oob i
+  | .diverges => .diverges
+  | .ill m => .ill m
+
+infixl:55 " >>=! " => bindS
+infixl:55 " >>=? " => bindI
+
+/-- `2^n` as an integer, computed in `Nat` -/
+def p2 (n : Nat) : Int := ((2^n : Nat) : Int)
+
+def maxF (t : IntTy) : Int := if t.signed then p2 (t.bits-1) - 1 else p2 t.bits - 1
+def lowestF (t : IntTy) : Int := if t.signed then -(p2 (t.bits-1)) else 0
+def wrapF (t : IntTy) (v : Int) : Int :=
+  if t.signed then ((v + p2 (t.bits-1)) % p2 t.bits) - p2 (t.bits-1) else v % p2 t.bits
+
+def arithF (T : IntTy) (x : Int) : Res TV :=
+  forceInt x fun x =>
+  if T.signed then (if lowestF T ≤ x ∧ x ≤ maxF T then .ok (T, x) else .ub .signedOverflow) else .ok (T, wrapF T x)
+
+def forceTy {α : Type} (t : IntTy) (k : IntTy → α) : α :=
+  forceNat t.bits fun b =>
+    match t.signed with
+    | true => k ⟨b, true⟩
+    | false => k ⟨b, false⟩
+
+def cBinF (op : BinOp) (x y : TV) : Res TV :=
+  forceTy (usualArith x.1 y.1) fun T =>
+  forceInt (wrapF T x.2) fun a =>
+  forceInt (wrapF T y.2) fun b =>
+  match op with
+  | .add => arithF T (a + b)
+  | .sub => arithF T (a - b)
+  | .mul => arithF T (a * b)
+  | .div => if b = 0 then .ub .divByZero
+            else if T.signed ∧ a = lowestF T ∧ b = -1 then .ub .divOverflow else arithF T (a.tdiv b)
+  | .shl => forceTy (promote x.1) fun P =>
+            if y.2 < 0 ∨ y.2 ≥ P.bits then .ub .shiftCount else .ok (P, wrapF P (x.2 * p2 y.2.toNat))
+  | .shr => forceTy (promote x.1) fun P =>
+            if y.2 < 0 ∨ y.2 ≥ P.bits then .ub .shiftCount else .ok (P, x.2 / p2 y.2.toNat)
+  | o => cBin o x y
+
+/-- `cCmp .le` -/
+def cLeF (x y : TV) : Bool :=
+  let T := usualArith x.1 y.1
+  decide (wrapF T x.2 ≤ wrapF T y.2)
+
+/-- `powerValueInt S k 2` -/
+def powerValue2F (S : IntTy) (k : Nat) : Res TV :=
+  if k = 0 then .ok (S, 1)
+  else
+    let P := promote S
+    if k < P.digits then .ok (P, p2 k) else .ill "power_value: attempted operation will result in overflow"
+
+/-- `scaleInt k 2 s` -/
+def scale2F (k : Int) (s : TV) : Res TV :=
+  if k ≥ 0 then
+    powerValue2F s.1 k.toNat >>=! fun p =>
+    cBinF .mul s p
+  else
+    powerValue2F s.1 (-k).toNat >>=! fun p =>
+    cBinF .div s p
+
 /-! ## integer helpers -/
 
 /-- `set_digits_t<T, d>` for a built-in integer: narrowest standard width with at least `d` digits -/
@@ -87,91 +197,88 @@ def safeMul (a b : TV) : Res TV :=
   let dp := (usualArith a.1 b.1).digits
   let ds := a.1.digits + b.1.digits
   if dp < ds then
-    cBin .mul ((setDigits a.1.signed ds), a.2) ((setDigits b.1.signed ds), b.2)
-  else if ds < dp then cBin .mul a b
+    cBinF .mul ((setDigits a.1.signed ds), a.2) ((setDigits b.1.signed ds), b.2)
+  else if ds < dp then cBinF .mul a b
   else .ill "safe_multiply: ambiguous overload"
 
 /-- `fp{product}`: `scaled<P, -2W>` → `scaled<uW, -W>`: `static_cast<uW>(scale<-W>(rep))` -/
-def toFp (U : IntTy) (p : TV) : Res Int := do
-  let q ← scaleInt (-(U.bits : Int)) 2 p
-  pure (U.wrap q.2)
+def toFp (U : IntTy) (p : TV) : Res Int :=
+  scale2F (-(U.bits : Int)) p >>=! fun q =>
+  .ok (wrapF U q.2)
 
 /-- one Horner step `fp{safe_multiply(xf, c + t)}` -/
-def hornerStep (U : IntTy) (xf : Int) (c : Nat) (t : Int) : Res Int := do
-  let s ← cBin .add (U, (c : Int)) (U, t)
-  let p ← safeMul (U, xf) s
+def hornerStep (U : IntTy) (xf : Int) (c : Nat) (t : Int) : Res Int :=
+  cBinF .add (U, (c : Int)) (U, t) >>=! fun s =>
+  safeMul (U, xf) s >>=! fun p =>
   toFp U p
 
 /-- `evaluate_polynomial(xf)` with coefficient list `[a1, …, a7]` -/
 def evalPoly (U : IntTy) (cs : List Nat) (xf : Int) : Res Int :=
   match cs with
-  | [a1, a2, a3, a4, a5, a6, a7] => do
-    let p7 ← safeMul (U, (a7 : Int)) (U, xf)
-    let t7 ← toFp U p7
-    let t6 ← hornerStep U xf a6 t7
-    let t5 ← hornerStep U xf a5 t6
-    let t4 ← hornerStep U xf a4 t5
-    let t3 ← hornerStep U xf a3 t4
-    let t2 ← hornerStep U xf a2 t3
+  | [a1, a2, a3, a4, a5, a6, a7] =>
+    safeMul (U, (a7 : Int)) (U, xf) >>=! fun p7 =>
+    toFp U p7 >>=? fun t7 =>
+    hornerStep U xf a6 t7 >>=? fun t6 =>
+    hornerStep U xf a5 t6 >>=? fun t5 =>
+    hornerStep U xf a4 t5 >>=? fun t4 =>
+    hornerStep U xf a3 t4 >>=? fun t3 =>
+    hornerStep U xf a2 t3 >>=? fun t2 =>
     hornerStep U xf a1 t2
   | _ => .ill "coefficient table"
 
 /-- `static_cast<Rep>(floor(x))` -/
 def floored (f : Fmt) (rep : Int) : Res Int :=
-  if f.exp < 0 then do
-    let v ← cBin .shr (f.rep, rep) (i32, -f.exp)
-    pure (f.rep.wrap v.2)
-  else do
-    let v ← scaleInt f.exp 2 (f.rep, rep)
-    pure (f.rep.wrap v.2)
+  if f.exp < 0 then
+    cBinF .shr (f.rep, rep) (i32, -f.exp) >>=! fun v =>
+    .ok (wrapF f.rep v.2)
+  else
+    scale2F f.exp (f.rep, rep) >>=! fun v =>
+    .ok (wrapF f.rep v.2)
 
 /-- `fractional(x, floored)` converted to the parameter type `scaled_integer<Rep, power<E>>` of `exp2m1_0to1` -/
 def fractional (f : Fmt) (rep fl : Int) : Res Int :=
-  if -(f.rep.digits : Int) < f.exp then do
+  if -(f.rep.digits : Int) < f.exp then
     -- `x - floored`: the integer is lifted to `power<0>`, both sides are scaled to the lower exponent
     let c := min f.exp 0
-    let a ← scaleInt (f.exp - c) 2 (f.rep, rep)
-    let b ← scaleInt (0 - c) 2 (f.rep, fl)
-    let d ← cBin .sub a b
+    scale2F (f.exp - c) (f.rep, rep) >>=! fun a =>
+    scale2F (0 - c) (f.rep, fl) >>=! fun b =>
+    cBinF .sub a b >>=! fun d =>
     -- back to `scaled<Rep, E>` (exponent `c` → `E`)
-    let r ← scaleInt (c - f.exp) 2 d
-    pure (f.rep.wrap r.2)
-  else pure rep
+    scale2F (c - f.exp) d >>=! fun r =>
+    .ok (wrapF f.rep r.2)
+  else .ok rep
 
 /-- `to_rep(exp2m1_0to1<Rep, E>(frac))` -/
 def exp2m1 (f : Fmt) (cs : List Nat) (frac : Int) : Res TV :=
   -- `from_rep<make_largest_ufraction<…>>(0)`: `from_rep` takes the representation type from its argument, an `int`
-  if f.exp ≥ 0 then pure (i32, 0)
-  else do
+  if f.exp ≥ 0 then .ok (i32, 0)
+  else
     let U := f.urep
-    let u := U.wrap frac                                     -- scaled<uRep, E>{x}
-    let s ← scaleInt (f.exp + f.bits) 2 (U, u)               -- im{…}: scale<E − (−W)>
-    let p ← evalPoly U cs (U.wrap s.2)
-    pure (U, p)
+    -- `scaled<uRep, E>{x}`, then `im{…}`: `scale<E − (−W)>`
+    scale2F (f.exp + f.bits) (U, wrapF U frac) >>=! fun s =>
+    forceInt (wrapF U s.2) fun xf =>
+    evalPoly U cs xf >>=? fun p =>
+    .ok (U, p)
 
 /-- representation type of the value `exp2m1_0to1` returns -/
 def polyTy (f : Fmt) : IntTy := if f.exp ≥ 0 then i32 else f.urep
 
 /-- `fp::exp2<im>(x, floored)` followed by the conversion to the return type; result = rep of `exp2(x)` -/
-def exp2With (cs : List Nat) (f : Fmt) (rep : Int) : Res Int := do
+def exp2With (cs : List Nat) (f : Fmt) (rep : Int) : Res Int :=
   let R := f.rep
-  let U := f.urep
-  let fl ← floored f rep
+  floored f rep >>=? fun fl =>
   -- the arms of the conditional: `uRep{1}` and the sum below; common type by the usual conversions
-  let shT := promote (polyTy f)
-  let oneT := promote R
-  let sumT := usualArith shT oneT
-  let C := usualArith U sumT
-  if cCmp .le (R, fl) (i32, f.exp) then pure (R.wrap (C.wrap 1))
-  else do
-    let frac ← fractional f rep fl
-    let poly ← exp2m1 f cs frac
-    let cnt ← cBin .sub (i32, (f.bits : Int) + f.exp) (R, fl)       -- −(−W) + E − floored
-    let sh ← cBin .shr poly cnt
-    let k ← cBin .sub (R, fl) (i32, f.exp)                           -- floored − E
-    let one ← cBin .shl (R, 1) k
-    let sum ← cBin .add sh one
-    pure (R.wrap (C.wrap sum.2))
+  let C := usualArith f.urep (usualArith (promote (polyTy f)) (promote R))
+  if cLeF (R, fl) (i32, f.exp) then .ok (wrapF R (wrapF C 1))
+  else
+    fractional f rep fl >>=? fun frac =>
+    exp2m1 f cs frac >>=! fun poly =>
+    cBinF .sub (i32, (f.bits : Int) + f.exp) (R, fl) >>=! fun cnt =>     -- −(−W) + E − floored
+    cBinF .shr poly cnt >>=! fun sh =>
+    cBinF .sub (R, fl) (i32, f.exp) >>=! fun k =>                          -- floored − E
+    cBinF .shl (R, 1) k >>=! fun one =>
+    cBinF .add sh one >>=! fun sum =>
+    .ok (wrapF R (wrapF C sum.2))
 
 /-- the model of `cnl::exp2` on the format `f` with the coefficients the headers contain now -/
 def exp2 (f : Fmt) (rep : Int) : Res Int := exp2With (coeffs f.bits) f rep
